@@ -59,6 +59,7 @@ theorem tx_wf (b : Bool) (op : Op) (now : Int) (db : DB) (h : WF db)
     WF (Model.tx b op now db).db := by
   cases op with
   | strIncr k d => exact strIncr_wf h k d now
+  | strIncrFloat k d => exact strIncrFloat_wf h k d now
   | strSet k v => exact strSet_wf h k v none now
   | strSetExpires k v ttl => exact strSetExpires_wf h k v ttl now
   | strSetMany items => exact strSetMany_wf items now h
@@ -95,6 +96,7 @@ theorem tx_wf (b : Bool) (op : Op) (now : Int) (db : DB) (h : WF db)
   | setPop k o => exact setPop_wf h k o now
   | hashDelete k fs => exact hashDelete_wf h k fs now
   | hashIncr k f d => exact hashIncr_wf h k f d now
+  | hashIncrFloat k f d => exact hashIncrFloat_wf h k f d now
   | hashSet k f v => exact hashSet_wf h k f v now
   | hashSetMany k items => exact hashSetMany_wf h k items now
   | hashSetNotExists k f v => exact hashSetNotExists_wf h k f v now
@@ -135,6 +137,7 @@ theorem tx_not_wf (op : Op) (now : Int) (db : DB) (h : WF db)
 theorem tx_fk (b : Bool) (op : Op) (now : Int) (db : DB) : (Model.tx b op now db).db.fk = db.fk := by
   cases op with
   | strIncr k d => exact strIncr_fk db k d now
+  | strIncrFloat k d => exact strIncrFloat_fk db k d now
   | strSet k v => exact strSet_fk db k v none now
   | strSetExpires k v ttl => exact strSet_fk db k v _ now
   | strSetMany items => exact strSetMany_fk items now db
@@ -168,6 +171,7 @@ theorem tx_fk (b : Bool) (op : Op) (now : Int) (db : DB) : (Model.tx b op now db
   | setPop k o => exact setPop_fk db k o now
   | hashDelete k fs => exact hashDelete_fk db k fs now
   | hashIncr k f d => exact hashIncr_fk db k f d now
+  | hashIncrFloat k f d => exact hashIncrFloat_fk db k f d now
   | hashSet k f v => exact hashSet_fk db k f v now
   | hashSetMany k items => exact hashSetMany_fk db k items now
   | hashSetNotExists k f v => exact hashSetNotExists_fk db k f v now
